@@ -627,8 +627,9 @@ func (x *Exec) typeAssert(fr *Frame, st *State, i *ssa.TypeAssert) *Val {
 	okc = x.sc.Define("isT", okc)
 	payload := App(s, uf, App(SBox, "ibox", v))
 	if i.CommaOk {
-		val := Ite(okc, payload, x.zeroOf(i.AssertedType))
-		return &Val{Ty: i.Type(), Tuple: []*Val{{T: x.sc.Define("ta", val), Ty: i.AssertedType}, {T: okc, Ty: types.Typ[types.Bool]}}}
+		val := x.sc.Define("ta", Ite(okc, payload, x.zeroOf(i.AssertedType)))
+		x.assume(st, x.typeInv(val, i.AssertedType, st, 1))
+		return &Val{Ty: i.Type(), Tuple: []*Val{{T: val, Ty: i.AssertedType}, {T: okc, Ty: types.Typ[types.Bool]}}}
 	}
 	x.check(st, "no-panic", x.oblName(fr, "type-assert", i.Pos()), okc, fnProps(fr), "type assertion may fail", x.pos(i.Pos()))
 	out := &Val{T: x.sc.Define("ta", payload), Ty: i.AssertedType}
